@@ -32,7 +32,7 @@ type sysRun struct {
 
 func tlaBool(b bool) string { return strings.ToUpper(strconv.FormatBool(b)) }
 
-func tlaSet(xs []string) string {
+func tlaSetOf(xs []string) string {
 	q := make([]string, len(xs))
 	for i, x := range xs {
 		q[i] = `"` + x + `"`
@@ -51,9 +51,9 @@ func sysModulePeek(mode string, cfg sys.Config, maxRPC, maxStims int, kinds []st
 		base = "SystemTrace"
 	}
 	name, mod, consts := vf.MCModule(base, map[string]string{
-		"CliThreads":  tlaSet(cfg.Threads),
-		"ArmedPoints": tlaSet(points),
-		"StimKinds":   tlaSet(kinds),
+		"CliThreads":  tlaSetOf(cfg.Threads),
+		"ArmedPoints": tlaSetOf(points),
+		"StimKinds":   tlaSetOf(kinds),
 	}, map[string]string{
 		"MaxRPC": strconv.Itoa(maxRPC), "MaxStims": strconv.Itoa(maxStims),
 		"Small": tlaBool(cfg.Small), "Manual": tlaBool(cfg.Manual), "Soft": tlaBool(cfg.Soft),
